@@ -31,9 +31,12 @@ IDH += [ID(x, 5, indep=True, conc=c) for x in ('a~s2', 's~s2', 'a~s2R', 'b~s2') 
 # the assertion API must crash: assert_queue on a queue outside the chain, assert_queue_not on one inside it (the crash ends the path; returning is the violation)
 IDH += [ID('a', 0, neg=(0, 1), chain=True), ID('a1', 0, neg=(0, 0), chain=True), ID('s', 0, neg=(0, 0), chain=True), ID('a', 0, neg=(0, 2), fanin=True), ID('a2', 0, neg=(0, 0), fanin=True),
         ID('a~s2', 0, neg=(1, 0), indep=True, conc=True), ID('a~s2', 0, neg=(1, 1), indep=True, conc=True), ID('a', 0, neg=(0, 2), indep=True)]
+# the chain ends in the real thread-bound MAIN queue: synchronous items are run remotely by the main thread, which must make the SUBMISSION queue current (not the main queue)
+for mask in (0, 1, 2, 3):
+    IDH += [ID(x, mask, mainq=True) for x in ('a', 's', 'a1', 's1', 'as', 'w')]
 HARNESSES += IDH
 ASSUMPTIONS = ['attribute table contents are excluded (attributes are used as addresses only); attribute index symbolic over the whole table (count read from the sources by a probe and compared with the documented product 2*2*16*7*3*3)',
                'the oracle decodes indices by the documented field order; division/modulo by constants on both sides',
                'identity: hierarchies of depth 2 (chain, fan-in) and three independent queues; keys on every subset of levels; submission paths async, sync, barrier, redirected through a concurrent queue, and synchronous submission from inside a running item (same thread); dispatch_apply path not covered', 'global queues: the platform clamp (no OS QoS support: MAINTENANCE->BACKGROUND, USER_INTERACTIVE->USER_INITIATED) is part of the oracle']
-LEVEL_TEXT = "Attribute algebra over the whole table: symbolic index over all 4032 entries (count probed from the sources and compared with the documented product) and arbitrary constructor arguments: each of the four public constructors changes exactly its field, invalid QoS/relative priority leave the attribute unchanged, any two constructors commute, to_info/from_info round-trip. dispatch_get_global_queue over all int-valued identifiers x all 2^64 flags: documented class with the platform clamp, NULL for undefined identifiers/flags. A genuine defect (HIGH priority mapped to the background queue) was found and fixed in /repo. Identity: inside work items reached by async, sync, barrier, redirected and nested-synchronous submission, dispatch_get_specific returns the nearest ancestor's value, dispatch_assert_queue accepts exactly the queues of the chain (and of the submitting context for synchronous submissions) and dispatch_assert_queue_not the others (the crash direction is checked by histories that must end in the crash)."
+LEVEL_TEXT = "Attribute algebra over the whole table: symbolic index over all 4032 entries (count probed from the sources and compared with the documented product) and arbitrary constructor arguments: each of the four public constructors changes exactly its field, invalid QoS/relative priority leave the attribute unchanged, any two constructors commute, to_info/from_info round-trip. dispatch_get_global_queue over all int-valued identifiers x all 2^64 flags: documented class with the platform clamp, NULL for undefined identifiers/flags. A genuine defect (HIGH priority mapped to the background queue) was found and fixed in /repo. Identity: inside work items reached by async, sync, barrier, redirected and nested-synchronous submission, dispatch_get_specific returns the nearest ancestor's value, dispatch_assert_queue accepts exactly the queues of the chain (and of the submitting context for synchronous submissions) and dispatch_assert_queue_not the others (the crash direction is checked by histories that must end in the crash). Identity also when the chain ends in the real thread-bound main queue (keys on every subset of levels; asynchronous and synchronous submission from another thread, run remotely by the main thread): the submission queue, not the main queue, is current inside the item."
 LEVEL_NOTE = 'Identity part: through the shared history harness on chains, fan-ins and independent queues with keys on every subset of levels; depth <= 2; apply path not covered. Queue creation from an attribute (_dispatch_lane_create_with_target) is exercised only through the configurations of the history harness.'
